@@ -235,6 +235,12 @@ def check(run: Run) -> None:
                 run.check(not bad, "C12.R7", fi, stmt_of(c), "deepcopy is not applied to a stream's query AST", f"{fi.name} deep-copies {show(t)[:60]}: the copy's root node carries a *clone* of the dataset object and an executor bound to that clone, so value() no longer runs on the user's dataset (and its state / identity is lost)", "copy.copy of the top node (children shared)")
     run.notes["deepcopy_sites"] = n_dc
 
+    # ---------------- R9: "only empty MetaData wrappers are removed" - and all of them - is C15's half about remove_empty_metadata
+    run.rule("C12.R9", "the cleaner handed to the executor removes exactly the empty MetaData wrappers, at every depth (rule set of C15 re-evaluated)")
+    from ..report import run_stage
+
+    run_stage(run, "c15")
+
     # ---------------- R5
     eff = effects_for(m)
     for fi in (va, ge):
